@@ -166,6 +166,12 @@ def conv_sets(dialog):
     S = Conv("S", [("nat", "same opening"), ("nat", "forbidden question", {"verdicts": {"in1": "R"}})])
     T = Conv("T", [("nat", "same opening", {"options": {"rails": {"input": False}}}), ("nat", "forbidden question", {"options": {"rails": {"input": False}}, "verdicts": {"in1": "R"}})])
     sets.append(("same-texts-different-options", [S, T]))
+    # 10. two conversations whose histories define a flow (start_flow event message) under the SAME flow id with different bodies
+    def sf(body):
+        return {"role": "event", "event": {"type": "start_flow", "flow_id": "my_flow", "flow_body": body}}
+    U = Conv("U", [("hist", [sf("bot say one")]), ("hist", [{"role": "user", "content": "x"}, {"role": "assistant", "content": "y"}, sf("bot say one")])])
+    V = Conv("V", [("hist", [sf("bot say two\nbot say three")])])
+    sets.append(("flow-defined-in-the-history-under-one-id", [U, V]))
     return sets
 
 
